@@ -329,6 +329,7 @@ def run(tier):
     for _ in range(60 if quick else 2000):
         scen.append(merge_query(rng, rng.choice([2, 3, 4])))
     seqfam.run_scenarios(res, scen, "TraceBatch", tag="agg", relayout_p=0.3, retype_p=0.3, rename_p=0.3)
+    seqfam.run_pinned(res, "TraceBatch")
     res.cov["exhaustive"] = not quick
     res.cov["distinct_nontrivial"] = len({json.dumps(s["rows"], sort_keys=True) + s["sql"] for s in scen})
     res.cov["rule"] = ("every value sequence of length <= %d over {NULL, missing, -3, 0, 2, 2, 7} as a batch (hence every permutation), for 4 argument shapes "
